@@ -13,7 +13,7 @@ _BINOPS = ('AddWithOverflow', 'SubWithOverflow', 'MulWithOverflow', 'AddUnchecke
            'Add', 'Sub', 'Mul', 'Div', 'Rem', 'BitXor', 'BitAnd', 'BitOr', 'Shl', 'Shr', 'Eq', 'Lt', 'Le', 'Ne', 'Ge', 'Gt', 'Cmp', 'Offset')
 _BINOP_RE = re.compile(r'^(' + '|'.join(_BINOPS) + r')\((.*)\)$')
 _UNOP_RE = re.compile(r'^(Not|Neg|PtrMetadata|Len)\((.*)\)$')
-_CAST_RE = re.compile(r'^(.*) as (.*) \((\w+(?:\([^)]*\))?)\)$')
+_CAST_RE = re.compile(r'^(.*) as (.*) \((\w+(?:\(.*\))?)\)$')      # the cast kind may nest: PointerCoercion(ReifyFnPointer(Safe), Implicit)
 _LOCAL_RE = re.compile(r'^_\d+$')
 _INTLIT = re.compile(r'^(-?\d+)_(u8|u16|u32|u64|u128|usize|i8|i16|i32|i64|i128|isize)$')
 _FLOATLIT = re.compile(r'^(-?(?:\d[\d.]*(?:[eE][+-]?\d+)?|inf|NaN))f64$')
@@ -254,7 +254,10 @@ class VM:
             r = s.check()
             st.solver_s += time.time() - t; st.queries += 1
             if r == z3.sat: st.sat += 1; return r, s.model()
-            if r == z3.unsat: st.unsat += 1; return r, None
+            if r == z3.unsat:
+                st.unsat += 1
+                if extra: self._xsample(extra)
+                return r, None
             # fall through to the incremental solver before giving up
         ex.solver.push()
         try:
@@ -263,7 +266,27 @@ class VM:
             m = ex.solver.model() if r == z3.sat else None
         finally:
             ex.solver.pop()
+        if r == z3.unsat and extra: self._xsample(extra)
         return r, m
+
+    def _xsample(self, extra):
+        """keep a spaced-out sample of the discharged assertion queries (pc ∧ ¬assertion, answered unsat) as SMT-LIB2
+        text; run.py re-decides them with two other solvers (cvc5, z3 4.8.12) -- the cross-solver audit of DESIGN §2.3"""
+        ex = self.ex
+        ex.xseen = getattr(ex, 'xseen', 0) + 1
+        xs = getattr(ex, 'xqueries', None)
+        if xs is None: xs = ex.xqueries = []
+        cap = 4 if getattr(self, 'tier', 'quick') == 'quick' else 16
+        n = ex.xseen
+        if n & (n - 1): return          # keep queries number 1, 2, 4, 8, ... (early and late ones, bounded)
+        if len(xs) >= cap: xs.pop(1)
+        try:
+            s = z3.Solver()
+            for c in self.pc: s.add(c)
+            for e in extra: s.add(e)
+            xs.append(s.to_smt2())
+        except Exception:
+            pass
 
     def must_hold(self, prop, what):
         """assert `prop` on this path: discharge pc ∧ ¬prop"""
@@ -364,6 +387,8 @@ class VM:
             a = self.parse_operand(m.group(2), fn)
             return ('un', m.group(1), a, self.operand_type(a, fn))
         m = _CAST_RE.match(s)
+        if m and 'ReifyFnPointer' in m.group(3) and not s.startswith(('copy ', 'move ', 'const ')):
+            return ('use', self.parse_operand(m.group(1), fn))          # fn item / variant constructor named directly: `Path::f as fn(..) -> .. (PointerCoercion(ReifyFnPointer(Safe), ..))`
         if m and (s.startswith(('copy ', 'move ', 'const ')) ):
             a = self.parse_operand(m.group(1), fn)
             return ('cast', a, canon(m.group(2)), m.group(3), self.operand_type(a, fn))
